@@ -3,47 +3,92 @@
 //!
 //! usage: c11 <cases.ndjson> <out.ndjson>
 //!
-//! A case is {id, family, n, doc (abstract tree)}.  Each document is printed and executed on the static family
-//! (vh::fam) built with limit_complexity / limit_depth (so that an expensive document is refused after
-//! checking instead of being executed), limit_directives (so that check_max_directives runs) and a recursion
-//! limit above every generated nesting.  The counters are reset before and read after the request:
+//! A case is {id, family, n, cfg: {recursive, directives}, doc (abstract tree)}.  Each document is printed and
+//! executed on the static family (vh::fam) built with limit_complexity / limit_depth (so that an expensive
+//! document is refused after checking instead of being executed) and with the case's limit_recursive_depth
+//! (-1: the default 32) and limit_directives (-1: unset) -- above every nesting for the requests that shall
+//! pass, below the document's nesting for the requests that shall be refused cheaply.  The counters are reset before and read after the request:
 //!   counters = [visit_selection, visit_field, recursive_depth, max_directives, find_conflicts]
 //! The harness only drives and records; TLC (spec/gql/WorkTrace.tla) computes sizes, bounds and the expected
 //! work.  Wall time is recorded, never judged.
 use async_graphql::Request;
 use serde_json::{Value as J, json};
 use vh::io::*;
+use std::collections::HashMap;
+use std::sync::{Arc, Mutex};
 use vh::{doc, exec, fam, world::Req};
+
+/// A run-away check must end as *data* (a violation), not as a harness time-out: a watchdog thread reads the counters
+/// while the request runs; beyond 2^26 units of work it records the request with the counters seen so far
+/// (`aborted: true`), flushes the trace and ends the process.  On the unchanged tree no request comes near (work < 2^20).
+const WORK_CAP: u64 = 1 << 26;
+
+fn snapshot() -> [u64; 5] {
+    use async_graphql::verif_hooks as h;
+    use std::sync::atomic::Ordering::Relaxed;
+    [h::VISIT_SELECTION.load(Relaxed), h::VISIT_FIELD.load(Relaxed), h::RECURSIVE_DEPTH.load(Relaxed), h::MAX_DIRECTIVES.load(Relaxed), h::FIND_CONFLICTS.load(Relaxed)]
+}
+
+fn build(recursive: i64, directives: i64) -> fam::ExecSchema {
+    let mut b = fam::builder().limit_complexity(200).limit_depth(12);
+    if recursive >= 0 { b = b.limit_recursive_depth(recursive as usize); }
+    if directives >= 0 { b = b.limit_directives(directives as usize); }
+    b.finish()
+}
 
 fn main() {
     let args: Vec<String> = std::env::args().collect();
     if args.len() < 3 { tool_error("usage: c11 <cases.ndjson> <out.ndjson>"); }
     let cases = read_ndjson(&args[1]);
-    let mut out = NdWriter::create(&args[2]);
-    let schema = fam::builder().limit_complexity(200).limit_depth(12).limit_directives(1000).limit_recursive_depth(64).finish();
+    let out = Arc::new(Mutex::new(Some(NdWriter::create(&args[2]))));
+    let current: Arc<Mutex<Option<(J, std::time::Instant)>>> = Arc::new(Mutex::new(None));
+    {
+        let (out, current) = (out.clone(), current.clone());
+        std::thread::spawn(move || loop {
+            std::thread::sleep(std::time::Duration::from_millis(20));
+            let snap = snapshot();
+            if snap.iter().any(|c| *c > WORK_CAP) {
+                let mut cur = current.lock().unwrap();
+                if let Some((mut case, t0)) = cur.take() {
+                    case["obs"] = json!({"counters": snap, "wallUs": t0.elapsed().as_micros() as u64, "refused": false, "aborted": true, "message": "", "problem": ""});
+                    let mut w = out.lock().unwrap();
+                    if let Some(mut w) = w.take() { w.write(&case); w.finish(); }
+                    println!("{{\"aborted\": true}}");
+                    std::process::exit(0);
+                }
+            }
+        });
+    }
+    let mut schemas: HashMap<(i64, i64), fam::ExecSchema> = HashMap::new();
     let mut n = 0usize;
     for mut case in cases {
         let mut d = case["doc"].clone();
         let text = doc::print(&mut d);
         case["text"] = json!(text);
         case["bytes"] = json!(text.len());
+        // cfg: recursive = -1 keeps the default recursion limit (32); directives = -1 leaves limit_directives unset
+        let key = (case["cfg"]["recursive"].as_i64().unwrap_or(64), case["cfg"]["directives"].as_i64().unwrap_or(1000));
+        let schema = schemas.entry(key).or_insert_with(|| build(key.0, key.1));
         let req_data = Req::new(json!({}));
         let op_name = case["doc"]["ops"][0]["name"].as_str().unwrap_or("").to_string();
         let mut request = Request::new(text).data(req_data.clone());
         if !op_name.is_empty() { request = request.operation_name(op_name); }
         let _ = async_graphql::verif_hooks::take();
         let t0 = std::time::Instant::now();
+        *current.lock().unwrap() = Some((case.clone(), t0));
         let result = exec::catch(|| futures_executor::block_on(schema.execute(request)));
         let wall = t0.elapsed().as_micros() as u64;
+        let held = current.lock().unwrap().take();
+        if held.is_none() { loop { std::thread::sleep(std::time::Duration::from_secs(1)); } }   // the watchdog is writing this request
         let counters = async_graphql::verif_hooks::take();
         case["obs"] = match result {
-            Ok(r) => json!({"counters": counters, "wallUs": wall, "refused": !r.errors.is_empty() && req_data.take_log().is_empty(),
+            Ok(r) => json!({"counters": counters, "wallUs": wall, "refused": !r.errors.is_empty() && req_data.take_log().is_empty(), "aborted": false,
                             "message": r.errors.first().map(|e| e.message.clone()).unwrap_or_default(), "problem": ""}),
-            Err(p) => json!({"counters": counters, "wallUs": wall, "refused": false, "message": "", "problem": format!("panic: {p}")}),
+            Err(p) => json!({"counters": counters, "wallUs": wall, "refused": false, "aborted": false, "message": "", "problem": format!("panic: {p}")}),
         };
-        out.write(&case);
+        out.lock().unwrap().as_mut().unwrap().write(&case);
         n += 1;
     }
-    out.finish();
+    if let Some(w) = out.lock().unwrap().take() { w.finish(); }
     println!("{{\"cases\": {n}}}");
 }
